@@ -1,9 +1,14 @@
 package c03
 
 import (
+	"encoding/json"
 	"fmt"
 	"os"
 	"path/filepath"
+	"strconv"
+	"time"
+
+	"verif/harness/internal/vf"
 )
 
 // `vh c03-count <scenario> <config> [plain|count|strace]` runs one scenario and prints the
@@ -12,6 +17,42 @@ func init() {
 	if len(os.Args) > 3 && os.Args[1] == "c03-count" {
 		os.Exit(debugCount(os.Args[2], os.Args[3], append(os.Args[4:], "count")[0]))
 	}
+}
+
+// `vh c03-s6 <N>`: one S6 run (N=0: count run only) against a private scratch directory.
+func init() {
+	if len(os.Args) > 2 && os.Args[1] == "c03-s6" {
+		os.Exit(debugS6(os.Args[2]))
+	}
+}
+
+func debugS6(ns string) int {
+	n, _ := strconv.Atoi(ns)
+	base, err := os.MkdirTemp("/dev/shm", "c03s6-")
+	if err != nil {
+		return 2
+	}
+	defer os.RemoveAll(base)
+	if err := EnsurePtsup(); err != nil {
+		fmt.Fprintln(os.Stderr, err)
+		return 2
+	}
+	run := &vf.Run{ID: "C03", Tier: "thorough", Seed: 1, Scratch: base}
+	if bin := os.Getenv("C03_REAL_BIN"); bin != "" {
+		_ = os.Symlink(bin, realBinPath(run))
+	}
+	t0 := time.Now()
+	if n == 0 {
+		m, err := s6CountRun(run, 1)
+		fmt.Printf("count run: M=%d err=%v (%.1fs)\n", m, err, time.Since(t0).Seconds())
+		return 0
+	}
+	dir := filepath.Join(base, "case")
+	_ = os.MkdirAll(dir, 0o755)
+	res := runS6(run, spec{Scenario: "S6", N: n, DataSeed: 1, M: -1}, dir, &vf.Result{})
+	b, _ := json.MarshalIndent(res, "", " ")
+	fmt.Printf("%s\n(%.1fs)\n", b, time.Since(t0).Seconds())
+	return 0
 }
 
 func debugCount(scn, cfgn, mode string) int {
